@@ -28,6 +28,8 @@ WInl(i) ==
       [] i[1] \in {"a", "ins", "isdt"} -> WInls(i[2])          \* generic recursion into children
       [] i[1] = "del"  -> <<>>                                   \* runs carry w:delText, never w:t
       [] i[1] \in {"fn", "cm"} -> <<>>                           \* reference runs have no w:t
+      [] i[1] = "itbx" -> ConcatAll([k \in DOMAIN i[2] |->       \* w:r / AlternateContent / Choice / txbxContent / w:p: each nested
+                             WS \o (IF i[2][k][1] = "p" THEN WInls(i[2][k][2]) ELSE <<>>) \o WS])   \* paragraph set apart by line breaks
 WInls(is) == ConcatAll([k \in DOMAIN is |-> WInl(is[k])])
 
 \* ---- the XML tree the body walk sees: every block expands to a sequence of body-level elements
